@@ -251,11 +251,39 @@ def run(run):
                     return base  # a disjunction does not restrict to the other set
                 if is_call(c0, "contains") and pol and c0[2][0][0] == "var":
                     return base | set(ev_of.get(c0[2][0][1], set()))
+                if c0[0] == "and" and pol:
+                    conj = []
+
+                    def flat(z):
+                        z = S.value(z)
+                        if z[0] == "and":
+                            flat(z[1])
+                            flat(z[2])
+                        else:
+                            conj.append(z)
+                    flat(c0)
+                    got = set(base)
+                    for z in conj:
+                        if is_call(z, "contains") and z[2][0][0] == "var" and z[2][0][1] in ev_of:
+                            got |= set(ev_of[z[2][0][1]])
+                        else:
+                            extras.append(z)
+                    return got
                 raise Unknown("filter condition %s" % fmt(c0)[:80])
             raise Unknown(fmt(x)[:80])
 
+        extras = []
         try:
             ev = evidence(res)
+            if extras:
+                z = extras[0]
+                about_endpoints = any(is_call(y, ("edge_endpoints", "source", "target")) for y in S.subterms(z)) and any(isinstance(y, tuple) and y and y[0] == "var" and y[1] in ("target_node", "source_node", "target", "source") for y in S.subterms(z))
+                if about_endpoints:
+                    run.violated("R3", "result|no-call-on-a-path-is-dropped", "besides the two membership tests the result is filtered by `%s`: a call whose caller (or callee) is the source/target function itself still lies on a source-to-target path when that function is on a cycle of the call graph (recursion), and is dropped" % fmt(z)[:90], site)
+                else:
+                    run.undecided("R3", "result|no-call-on-a-path-is-dropped", "additional filter condition %s" % fmt(z)[:90], site)
+            else:
+                run.holds("R3", "result|no-call-on-a-path-is-dropped", "", site)
             need = {"SRC_FWD", "TGT_BWD"}
             missing = need - ev
             names = {"SRC_FWD": "its caller is reachable from the source function", "TGT_BWD": "its callee reaches the target function"}
